@@ -70,7 +70,7 @@ Collect(S, tn, sels, acc, frags) ==
        IN  IF s.k = "field" THEN
              Collect(S, tn, rest,
                      (IF inc THEN [acc EXCEPT !.fs = AddField(@, [alias |-> s.alias, name |-> s.name,
-                                                                   sels |-> s.sels, dfr |-> FALSE, label |-> "", dl |-> {},
+                                                                   sels |-> s.sels, dfr |-> FALSE, label |-> "", dl |-> {}, qdirs |-> s.qdirs,
                                                                    afault |-> s.afault, aname |-> s.aname], 1)]
                       ELSE acc), frags)
            ELSE IF s.k = "inline" THEN
@@ -185,6 +185,14 @@ Reverse(s) == [i \in 1..Len(s) |-> s[Len(s) + 1 - i]]
 \* (C04): an error or panic there fails the field like a resolver failure.
 IntHow(C, rp, tag) == IF (rp \o "@" \o tag) \in DOMAIN C.dirplan THEN C.dirplan[rp \o "@" \o tag] ELSE "pass"
 
+\* Executable directives applied to the field in the operation (location FIELD) are
+\* user code around the field as well; the first one (in nesting order) that does not
+\* pass decides: "err" fails the field, "null" yields null without running the rest.
+RECURSIVE QHow(_, _, _)
+QHow(C, rp, qs) ==
+  IF qs = <<>> THEN "pass"
+  ELSE LET h == IntHow(C, rp, Head(qs)) IN IF h = "pass" THEN QHow(C, rp, Tail(qs)) ELSE h
+
 ExecField(C, tn, f, rp, vp) ==
   IF f.name = "__typename"
   THEN [d |-> [t |-> "s", v |-> tn], isnull |-> FALSE, nn |-> TRUE, errs |-> <<>>, pos |-> {}, dinfo |-> {}]
@@ -192,7 +200,9 @@ ExecField(C, tn, f, rp, vp) ==
            rp2 == Join(rp, f.alias)
            rh  == IF rp = "" THEN IntHow(C, rp2, "#r") ELSE "pass"
            fh  == IntHow(C, rp2, "#f")
-           bad == IF rh = "panic" THEN "panic" ELSE IF fh = "err" THEN "int" ELSE IF fh = "panic" THEN "panic" ELSE ""
+           qh  == QHow(C, rp2, IF C.dord = "rev" THEN f.qdirs ELSE Reverse(f.qdirs))
+           bad == IF rh = "panic" THEN "panic" ELSE IF fh = "err" THEN "int" ELSE IF fh = "panic" THEN "panic"
+                  ELSE IF qh = "err" THEN "dir" ELSE IF qh = "panic" THEN "panic" ELSE ""
        IN  IF f.afault # ""
            \* an input unmarshaler of this field's arguments failed: an error is
            \* reported at the argument's path, a panic (recovered) at the field's path;
@@ -203,6 +213,9 @@ ExecField(C, tn, f, rp, vp) ==
            ELSE IF bad # ""
            THEN [d |-> Null, isnull |-> TRUE, nn |-> IsNN(fd.wrap),
                  errs |-> <<[p |-> rp2, c |-> bad]>>, pos |-> {}, dinfo |-> {}]
+           ELSE IF qh = "null"
+           THEN [d |-> Null, isnull |-> TRUE, nn |-> IsNN(fd.wrap),
+                 errs |-> IF IsNN(fd.wrap) THEN <<[p |-> rp2, c |-> "nonnull"]>> ELSE <<>>, pos |-> {}, dinfo |-> {}]
            ELSE IF fd.res
            THEN LET ds == IF C.dord = "rev" THEN Reverse(fd.dirs) ELSE fd.dirs
                     r  == Chain(C, fd, ds, f, rp2, rp2)
